@@ -165,7 +165,7 @@ class LSim(cluster.Sim):
                 fid, args = (c[0], tuple(c[1])) if isinstance(c, tuple) else (c, ())
                 name = self.lidname.get(fid)
                 if name == 'acquire':
-                    lock, client, now = args
+                    lock, client, now = args[:3]
                     ex = t.get(lock)
                     if ex is not None and now - ex[1] > aut:
                         ex = None
@@ -174,7 +174,7 @@ class LSim(cluster.Sim):
                         t[lock] = (client, now)
                         self.lock_cmds.append(('acquired', lock, client, now, p))
                 elif name == 'prolongate':
-                    client, now = args
+                    client, now = args[:2]
                     for lock in list(t):
                         c0, t0 = t[lock]
                         if now - t0 > aut:
@@ -183,7 +183,7 @@ class LSim(cluster.Sim):
                         elif c0 == client:
                             t[lock] = (client, now)
                 elif name == 'release':
-                    lock, client = args
+                    lock, client = args[:2]       # the reference is written from the docstrings: whatever else a command carries, a release by the holder frees the lock
                     self.lock_cmds.append(('release', lock, client, None, p))
                     ex = t.get(lock)
                     if ex is not None and ex[0] == client:
